@@ -163,4 +163,12 @@ def exJoinState : State :=
 
 example : stopMeasure exJoinState = 7 ∧ inStop exJoinState.owner := ⟨by decide, Or.inr (Or.inl ⟨_, _, rfl⟩)⟩
 
+/-- non-vacuity of the refused-thread step (`Step.spawnFail`): `start(1)` whose thread creation fails leaves task 1 queued, the pool
+    empty and the owner at its next operation; every theorem above covers what follows (here: `stop()`), since `Reach` includes
+    that step -/
+example : Reach 1 none [.start 1, .stop]
+    { queue := [1], running := true, pool := [], ws := [], owner := .idle [.stop], max := 1, timeout := none, now := 0,
+      submitted := [1], runs := [], finished := [], destroyed := [], dropped := [], stopped := false } :=
+  Reach.code (Reach.code Reach.init (Step.start _ 1 [.stop] rfl)) (Step.spawnFail _ [.stop] rfl (by decide))
+
 end TPoolX
